@@ -356,9 +356,9 @@ class RecDB:
 # the world: real clock, real agents, real engine, real executors; numerics and geometry are environment
 # ------------------------------------------------------------------------------------------------------------------
 class World:
-    def __init__(self, env, t0, js, dt, out, k0, N, n_targets=1, n_sensors=0, truth_only=True, save_filter_steps=False, with_engine=False, jdp=None):
+    def __init__(self, env, t0, js, dt, out, k0, N, n_targets=1, n_sensors=0, truth_only=True, save_filter_steps=False, with_engine=False, jdp=None, idle_estimates=False):
         self.env, self.t0, self.js, self.dt, self.out, self.k0, self.N = env, t0, js, dt, out, k0, N
-        self.cfg = dict(n_targets=n_targets, n_sensors=n_sensors, truth_only=truth_only, save_filter_steps=save_filter_steps, with_engine=with_engine)
+        self.cfg = dict(n_targets=n_targets, n_sensors=n_sensors, truth_only=truth_only, save_filter_steps=save_filter_steps, with_engine=with_engine, idle_estimates=idle_estimates)
         self.jdp = jdp
         self.nsteps = 0
         self.steps = []  # per executed step: dict(time, jd, obs, missed, man, fs)
@@ -552,7 +552,7 @@ class World:
         c = self.cfg
         for tid in TGT_IDS[:c["n_targets"]]:
             self.targets[tid] = TargetAgent(tid, f"T{tid}", "Spacecraft", self.env.state("t0"), self.clock, self._dynamics(), True, 10.0, 100.0, 0.2)
-            if not c["truth_only"]:
+            if not c["truth_only"] or c.get("idle_estimates"):  # a truth-only run of a built scenario still carries its (idle) estimate agents
                 x0, p0 = self.env.state("e0"), self.env.state("p0", 36).reshape(6, 6)
                 dyn = self._dynamics()
                 self.estimates[tid] = EstimateAgent(tid, f"T{tid}", "Spacecraft", self.clock, x0, p0, self._filter(tid, x0, p0, dyn), None, None, 10.0, 100.0, 0.2)
@@ -1127,6 +1127,7 @@ def _explore(fn, max_paths=1500):
 # ------------------------------------------------------------------------------------------------------------------
 LIGHT = dict(n_targets=1, n_sensors=0, truth_only=True, save_filter_steps=False, with_engine=False)
 TRUTH2 = dict(n_targets=2, n_sensors=1, truth_only=True, save_filter_steps=False, with_engine=False)
+TRUTH2E = dict(n_targets=2, n_sensors=1, truth_only=True, save_filter_steps=False, with_engine=False, idle_estimates=True)
 FULL = dict(n_targets=2, n_sensors=1, truth_only=False, save_filter_steps=True, with_engine=True)
 FULL_NOFS = dict(n_targets=2, n_sensors=1, truth_only=False, save_filter_steps=False, with_engine=True)
 FULL22 = dict(n_targets=2, n_sensors=2, truth_only=False, save_filter_steps=True, with_engine=True)
@@ -1771,7 +1772,7 @@ def obligations(tier):
         REPLAYS[name] = replay_run
 
     # the beginning of a run: real clock constructor, agents table, real Scenario constructor, first steps
-    inits = [(60, 60, TRUTH2, 3), (60, 120, FULL_NOFS, 3)] if quick else [(60, 60, TRUTH2, 8), (60, 120, FULL, 4), (300, 60, TRUTH2, 4), (3080, 3080, LIGHT, 6), (1, 60, LIGHT, 8)]
+    inits = [(60, 60, TRUTH2E, 3), (60, 120, FULL_NOFS, 3)] if quick else [(60, 60, TRUTH2E, 8), (60, 120, FULL, 4), (300, 60, TRUTH2, 4), (3080, 3080, LIGHT, 6), (1, 60, LIGHT, 8)]
     for dt, out, cfg, n in inits:
         pol = "quick" if cfg["with_engine"] else "free"
         add(f"init-dt{dt}-out{out}", (lambda a: lambda rep: o_init(rep, *a))((dt, out, cfg, pol, n, [(1, 2)])),
@@ -1784,7 +1785,7 @@ def obligations(tier):
     for dt, out in pairs:
         heavy = (dt, out) in ((60, 90), (60, 300), (300, 900), (1, 60))  # the pairs with the most residue classes: the second call is one step shorter
         hi2 = hi - 1 if heavy or (quick and (dt, out) != (60, 120)) else hi
-        add(f"cadence-dt{dt}-out{out}", (lambda a: lambda rep: o_run(rep, *a))((dt, out, TRUTH2 if (dt, out) == (60, 60) else LIGHT, [(1, hi), (1, hi2)], "free", ("epoch-inserted", "epoch-found"))),
+        add(f"cadence-dt{dt}-out{out}", (lambda a: lambda rep: o_run(rep, *a))((dt, out, TRUTH2E if (dt, out) == (60, 60) else LIGHT, [(1, hi), (1, hi2)], "free", ("epoch-inserted", "epoch-found"))),
             f"two consecutive propagateTo calls (1..{hi} and 1..{hi2} steps) from a symbolic step: output cadence, epochs, truth rows; dt={dt}, output step={out}", 900 if quick else 1800)
     # the full pipeline: estimates, engine, observations, misses, maneuvers, filter steps, tasks
     need = ("epoch-inserted", "epoch-found", "row:Observation", "row:MissedObservation", "row:DetectedManeuver", "row:SequentialFilterStep", "row:Task", "row:EstimateEphemeris")
